@@ -44,6 +44,10 @@ type c13Case struct {
 	// one interval passes, the same peer associates afresh and establishes the same three sessions again: the history then
 	// runs against the sessions of the second association
 	Reassoc bool `json:"reassoc,omitempty"`
+	// RefusedMod: before the history the control plane sends, for the notifying session, a Session Modification that repeats
+	// its downlink PDR (Update PDR) and that the datapath refuses (UP4: its first write fails; BESS never refuses): the
+	// session is unchanged and its reports must still be forwarded
+	RefusedMod bool `json:"refusedmod,omitempty"`
 }
 
 var c13Advances = []int64{int64(c13Interval) - 1, 1, int64(c13Interval)}
@@ -81,6 +85,7 @@ func c13Run(res *vResult, cs c13Case, ready *grpc.ClientConn) (viol, desc string
 		var u *upf
 		var notifySock *vnet.UnixSock
 		var up *UP4
+		var p4fake *fakeP4
 		if cs.P4 {
 			in := &vInst{cfg: vCfg{P4: true, NConns: 1, P4Conf: &vP4Cfg{DefaultTC: 3}}}
 			conf := vConfFor(in.cfg)
@@ -92,6 +97,7 @@ func c13Run(res *vResult, cs c13Case, ready *grpc.ClientConn) (viol, desc string
 			in.u = u
 			env := newVP4EnvWith(in, conf, nil)
 			up = env.up4
+			p4fake = env.fp
 			up.p4client.conn = ready
 			vsched.Go("up4.listenToDDNs", up.listenToDDNs)
 		} else {
@@ -176,6 +182,22 @@ func c13Run(res *vResult, cs c13Case, ready *grpc.ClientConn) (viol, desc string
 					return
 				}
 				sess[i].cp = uint64(0xE0 + i)
+			}
+		}
+		if cs.RefusedMod {
+			p, _, _ := rsBasic("16.0.0.1", 0x100, "11.1.1.129")
+			p[1].QERs, p[1].ID = nil, 20
+			if p4fake != nil {
+				p4fake.mu.Lock()
+				p4fake.faults[p4fake.nwrite] = fpFault{Shape: "p4err"}
+				p4fake.mu.Unlock()
+			}
+			peer.Send(c10N4+":8805", (&sReq{Kind: kMod, SEID: sess[0].up, Seq: 35, UpdatePDR: []sPDR{p[1]}}).build(c).marshal())
+			vsched.Quiesce("mod-refused")
+			d, err := vDecode(peer.Inbox[len(peer.Inbox)-1])
+			if err != nil || d.Type != message.MsgTypeSessionModificationResponse || (p4fake != nil && d.Cause == ie.CauseRequestAccepted) {
+				prologueErr = "the modification whose write fails was not refused"
+				return
 			}
 		}
 		sess[3] = sessInfo{up: 0xDEADBEEF, ue: vIP4("16.9.9.9")}
@@ -310,7 +332,7 @@ func TestVerifC13(t *testing.T) {
 		depth = 6
 	}
 	res.Rule = fmt.Sprintf("BFS to depth %d over {report for a session whose downlink FAR buffers+notifies / forwards / has no (UP4: a dropping) downlink rule / an unknown F-SEID, advance the virtual clock by interval-1ns / 1ns / interval}, "+
-		"(+ the same to depth 3 after the association was released and set up again with the same sessions), every sequence is executed from scratch (no state merging: the limiter's memory is not observable) on the real pipeline of both event sources "+
+		"(+ the same to depth 3 after the association was released and set up again with the same sessions, and after a modification of the notifying session that the datapath refused), every sequence is executed from scratch (no state merging: the limiter's memory is not observable) on the real pipeline of both event sources "+
 		"under the canonical schedule; every message written to the peer is decoded. distinct_nontrivial = histories executed; states = distinct reference-limiter states", depth)
 	res.Assumptions = []string{"one association (the code documents multi-association routing as not implemented)", "canonical schedule only: the pipeline is sequential per report (schedule exploration of node.Serve is C10's)",
 		"the notification interval is the hard-coded 20 s of notifyListen / listenToDDNs"}
@@ -412,8 +434,10 @@ func TestVerifC13(t *testing.T) {
 			}
 		}
 	}
-	// after a release and a fresh association of the same peer: every sequence of up to 3 events, sharded by the first
-	for _, p4mode := range []bool{false, true} {
+	// after a release and a fresh association of the same peer / after a modification of the notifying session that the
+	// datapath refused: every sequence of up to 3 events, sharded by the first
+	for fl := 0; fl < 4; fl++ {
+		p4mode, reassoc := fl&1 == 1, fl < 2
 		for a := range ops {
 			item++
 			if !vMine(item) {
@@ -426,14 +450,14 @@ func TestVerifC13(t *testing.T) {
 					if res.expired() {
 						return
 					}
-					cs := c13Case{P4: p4mode, History: h, Reassoc: true}
+					cs := c13Case{P4: p4mode, History: h, Reassoc: reassoc, RefusedMod: !reassoc}
 					res.journal(cs)
 					v, desc, _ := c13Run(res, cs, ready)
 					res.Evaluations++
 					res.Traces++
 					res.Distinct++
 					if v != "" {
-						res.finding(fmt.Sprintf("c13:%s:p4=%v:reassoc", v, p4mode), desc, cs)
+						res.finding(fmt.Sprintf("c13:%s:p4=%v:%s", v, p4mode, map[bool]string{true: "reassoc", false: "refused-mod"}[reassoc]), desc, cs)
 						continue
 					}
 					if dpt < 3 {
